@@ -144,6 +144,58 @@ func runC18(r *vk.Run) {
 		}
 	})
 
+	// tied timestamps across containers: the outcome of limit / first / last must not depend on which
+	// request completed first
+	tieQueries := []struct {
+		q     string
+		limit int
+	}{
+		{`{container=~"c.*"}`, 2}, {`{container=~"c.*"}`, 1}, {`{container=~"c.*"} | drop msg, container, container_id, container_name`, 3},
+		{`first_over_time({container=~"c.*"} | logfmt | unwrap v [20s]) by (job)`, -1}, {`last_over_time({container=~"c.*"} | logfmt | unwrap v [20s]) by (job)`, -1},
+		{`{container=~"c.*"} | distinct job`, -1},
+	}
+	r.Phase("ties", r.N(4, 40), func(c *vk.Case) {
+		for n := 2; n <= 4; n++ {
+			inv := make([]CSpec, n)
+			for i := range inv {
+				cs := CSpec{ID: fmt.Sprintf("id%d", i), Name: fmt.Sprintf("/c%d", i), Image: "img", State: "running", Labels: map[string]string{"job": "j"}}
+				for j := 0; j < 3; j++ {
+					// identical timestamps in every container
+					cs.Frames = append(cs.Frames, Frame{Type: 1, TS: c14T0 + int64(j)*2e9 + 1e9, Body: fmt.Sprintf("c%d#%d v=%d", i, j, 10*i+j+1)})
+				}
+				inv[i] = cs
+			}
+			for _, tq := range tieQueries {
+				first := ""
+				for _, perm := range permutations(n) {
+					fd := newFakeDocker(inv)
+					ids := make([]string, n)
+					for i, o := range perm {
+						ids[i] = inv[o].ID
+					}
+					g := newOrderGate(ids)
+					g.attach(fd)
+					data, err := evalRaw(fd, tq.q, EvalP{Start: c14T0, End: c14T0 + 10e9, Step: 5 * time.Second, Limit: tq.limit})
+					c.Eval(1)
+					if err != nil {
+						c.Fail("", fmt.Sprintf("query %s failed: %v", tq.q, err), map[string]any{"query": tq.q})
+						return
+					}
+					res, _ := convertResult(data)
+					canon := res.Canonical()
+					if first == "" {
+						first = canon + "\x00"
+					} else if first != canon+"\x00" {
+						c.Fail("", fmt.Sprintf("query %s (limit %d) over logs with tied timestamps depends on the completion order %v", tq.q, tq.limit, perm), map[string]any{"inventory": inv, "query": tq.q, "limit": tq.limit, "order": perm, "observed_order": g.observed(), "this_run": canon, "first_run": first})
+						return
+					}
+					c.Count("tie_runs_compared", 1)
+					c.Nontrivial(fmt.Sprintf("tie|%d|%d|%s|%v", c.Idx, n, tq.q, perm))
+				}
+			}
+		}
+	})
+
 	r.Phase("stress", r.N(6, 60), func(c *vk.Case) {
 		inv := c14Inventory(c.Rng, 64, 3)
 		for i := range inv {
@@ -184,4 +236,5 @@ func runC18(r *vk.Run) {
 	r.Require("renders_compared", 1000)
 	r.Require("distinct:completion_orders", 150)
 	r.Require("stress_runs", 50)
+	r.Require("tie_runs_compared", 500)
 }
